@@ -179,7 +179,7 @@ func c03(c *Ctx) {
 						continue
 					}
 					kind := nonNilError(r)
-					if kind == "nil" && !cfgx.IsNilConst(r.Results[0]) {
+					if kind == "nil" && !cfgx.IsNilConst(cfgx.ReturnValue(r, 0)) {
 						nSucc++
 						c.requireCross(load.FuncName(rf)+": success return @b"+itoa(b.Index), r, okEdgesSet, "the requirements-equal edge or a fatal result")
 					}
@@ -192,7 +192,7 @@ func c03(c *Ctx) {
 							}
 						}
 						if reach, _ := cfgx.ReachableFromEdges(exits, r, nil, nil); reach {
-							c.R.Check(kind == "nonnil" && cfgx.IsNilConst(r.Results[0]), load.FuncName(rf)+": exhaustion returns error", c.pos(r.Pos()), "after the bound is exhausted the function returns (nil, error)", "after the bound is exhausted the function does not return (nil, non-nil error)")
+							c.R.Check(kind == "nonnil" && cfgx.IsNilConst(cfgx.ReturnValue(r, 0)), load.FuncName(rf)+": exhaustion returns error", c.pos(r.Pos()), "after the bound is exhausted the function returns (nil, error)", "after the bound is exhausted the function does not return (nil, non-nil error)")
 						}
 					}
 				}
@@ -431,27 +431,7 @@ func nonNilError(r *ssa.Return) string {
 	if len(r.Results) == 0 {
 		return "unknown"
 	}
-	e := r.Results[len(r.Results)-1]
-	// results spilled to slots because of defer: find the stores in this block / dominating blocks
-	if ld, ok := e.(*ssa.UnOp); ok && ld.Op == token.MUL {
-		if a, ok := ld.X.(*ssa.Alloc); ok {
-			// the store that reaches this return: last store to a in the return block or its unique predecessors
-			b := r.Block()
-			for depth := 0; depth < 8 && b != nil; depth++ {
-				for i := len(b.Instrs) - 1; i >= 0; i-- {
-					if st, ok := b.Instrs[i].(*ssa.Store); ok && st.Addr == a {
-						return classifyErr(st.Val)
-					}
-				}
-				if len(b.Preds) == 1 {
-					b = b.Preds[0]
-				} else {
-					b = nil
-				}
-			}
-			return "unknown"
-		}
-	}
+	e := cfgx.ReturnValue(r, len(r.Results)-1)
 	return classifyErr(e)
 }
 
